@@ -176,8 +176,7 @@ def famMSE (cfg : Args) : Except String Fam := do
       if !ok then throw .value
       let (xc, tc, n, two, w) ← mseArgs a
       -- typed family of arity `d = #columns` (TE/Model/Fams.lean) + the arity marker of this adapter
-      let p ← Fams.mseStat xc.length ⟨xc, tc, n, w⟩
-      pure (p ++ [[if two then 1 else 0]])
+      Fams.withMarker two (Fams.mseStat xc.length ⟨xc, tc, n, w⟩)
     outA := fun p =>
       if !ok then .error .value else
       let two := part0 p 2 != 0
@@ -201,10 +200,9 @@ def famR2 (cfg : Args) : Except String Fam := do
       if i.ndim ≥ 3 || t.ndim ≥ 3 then throw .value
       if i.shape != t.shape then throw .value
       match asCols i, asCols t with
-      | some (xc, n, two), some (tc, _, _) => do
+      | some (xc, n, two), some (tc, _, _) =>
         -- typed family of arity `d = #columns` (TE/Model/Fams.lean) + the arity marker of this adapter
-        let p ← Fams.r2Stat xc.length ⟨xc, tc, n, none⟩
-        pure (p ++ [[if two then 1 else 0]])
+        Fams.withMarker two (Fams.r2Stat xc.length ⟨xc, tc, n, none⟩)
       | _, _ => throw .other
     outA := fun q =>
       match mo with
